@@ -332,8 +332,52 @@ def check_common(res, P, f, L, B, V, kb):
 
 # ---------------------------------------------------------------------------------------------------------- AGREE
 
-def check_agree(res, P, f, L, B, Dt, kb):
+def _bin_operands(f, og, o):
+    """MIR operands (l, r) of the comparison a switch operand is computed by (through copies and `!`)."""
+    p = op_place(o)
+    for _ in range(8):
+        if p is None:
+            return None
+        ds = og.defs().get(og._key(p), [])
+        if len(ds) != 1 or ds[0][0] != "st":
+            return None
+        rv = ds[0][3][2]
+        if rv["k"] == "bin":
+            return rv["l"], rv["r"]
+        if rv["k"] in ("use", "un", "cast"):
+            p = op_place(rv["x"])
+            continue
+        return None
+    return None
+
+
+def value_root(f, o):
+    """(slicing key, field path) of the value an operand is (a field / borrow / clone / copy of) — field sensitive, so the
+    components of one tuple (peer's data, own data) are different values."""
+    og = X.Origins(f)
+    fields = []
+    for _ in range(8):
+        key, fl = X.named_field_path(f, o)
+        if key is None:
+            return None
+        fields = [str(x) for x in fl] + fields
+        ds = og.defs().get(key, [])
+        if len(ds) == 1 and ds[0][0] == "call" and re.search(r"::clone$|::to_owned$|::borrow$|::as_ref$|::deref$|::into$|::from$", cname(ds[0][3])) \
+                and len(ds[0][3]["args"]) == 1:
+            o = ds[0][3]["args"][0]
+            continue
+        return key, tuple(fields)
+    return None
+
+
+def _is_part_of(side, whole):
+    """side = (key, path) denotes `whole` or a field of it"""
+    return side is not None and whole is not None and side[0] == whole[0] and side[1][:len(whole[1])] == whole[1]
+
+
+def check_agree(res, P, f, L, B, Dt, kb, V=None, accept_blocks=()):
     sx = X.SymX(f)
+    og0 = X.Origins(f)
     p = op_place(Dt)
     dty = re.sub(r"^&+(mut )?", "", f.local_ty(pl_local(p))) if p is not None and not pl_proj(p) else None
     found = []
@@ -347,17 +391,20 @@ def check_agree(res, P, f, L, B, Dt, kb):
             neg = not neg
             c = c[2]
         kind = None
+        operands = None
         if c[0] == "bin" and c[1] in ("Eq", "Ne"):
             l, r = c[2], c[3]
             lf = [x for x in sym_walk(l) if x[0] == "field" and x[2] == "network_magic"]
             rf = [x for x in sym_walk(r) if x[0] == "field" and x[2] == "network_magic"]
             if lf and rf:
                 kind = ("magic", c[1] == "Eq", l != r)
+                operands = _bin_operands(f, og0, t["d"])
         elif c[0] == "call" and re.search(r"PartialEq::(eq|ne)$", strip_generics(c[1])) and len(c[2]) == 2:
             st = f.blocks[c[3]]["term"]
             tys = [re.sub(r"^&+(mut )?", "", f.local_ty(pl_local(op_place(a)))) for a in st["args"] if op_place(a) is not None and not pl_proj(op_place(a))]
             if dty is not None and len(tys) == 2 and tys[0] == tys[1] == dty and not INTLIKE.match(dty):
                 kind = ("data", strip_generics(c[1]).endswith("::eq"), c[2][0] != c[2][1])
+                operands = (st["args"][0], st["args"][1])
         if kind is None:
             continue
         what, is_eq, distinct = kind
@@ -374,10 +421,49 @@ def check_agree(res, P, f, L, B, Dt, kb):
                 continue
             cond_true = bool(val) != neg
             equal_on_edge = cond_true == is_eq
-            found.append((what, equal_on_edge, distinct, S))
+            found.append((what, equal_on_edge, distinct, S, s, operands))
     good = [x for x in found if x[1] and x[2]]
     if good:
         res.ok(kb + ":agree", "AGREE", "accept depends on equality of the two sides' %s" % ("network magic" if good[0][0] == "magic" else "version data"))
+        what, _eq, _d, S, s_eq, operands = good[0]
+        # (a) a disagreement on a common version ends the negotiation: no accept is reachable from the mismatch edge
+        later = []
+        for sn in L.succ(S):
+            if sn == s_eq:
+                continue
+            reach = L.reachable(sn) | {sn}
+            later += [ab for ab in accept_blocks if ab in reach]
+        if later:
+            res.violation(kb + ":mismatch-terminates", "%s: when the common version's %s disagrees the search goes on and an accept is still reachable "
+                          "(near %s): a lower version is accepted although a higher one is offered by both sides; the mismatch must end the "
+                          "negotiation with a refusal" % (f.path, "network magic" if what == "magic" else "version data", X.term_where(f, later[0])),
+                          where=X.term_where(f, S), rule="AGREE")
+        else:
+            res.ok(kb + ":mismatch-terminates", "AGREE", "no accept is reachable from the mismatch edge")
+        # (b) what the peer's value is compared with is the negotiated entry itself: the very value placed in Accept, which
+        #     comes out of the selection of the accepted version
+        if operands is None or V is None:
+            res.violation(kb + ":agree-provenance", "%s: cannot identify the operands of the agreement comparison (fail closed)" % f.path,
+                          where=X.term_where(f, S), rule="AGREE")
+            return
+        droot = value_root(f, Dt)
+        roots = [value_root(f, o) for o in operands]
+        ogs = X.Origins(f, extra_transparent=ADAPT + r"|^core::option::Option::(map|and_then|filter|copied|cloned)$",
+                        opaque=MAXSEL.pattern + "|" + FIRSTSEL.pattern)
+        vsel = {x for x in ogs.of_operand(V) if x[0] == "call" and (MAXSEL.match(x[1]) or FIRSTSEL.search(x[1]))}
+        dsel = {x for x in ogs.of_operand(Dt) if x[0] == "call"}
+        if droot is None or not any(_is_part_of(r_, droot) for r_ in roots):
+            other = [("%s.%s" % (f.local_name(r[0]), ".".join(r[1])) if r is not None and isinstance(r[0], int) and f.local_name(r[0])
+                      else sym_str(sx.operand(o), 50)) for o, r in zip(operands, roots)]
+            res.violation(kb + ":agree-provenance", "%s: the peer's %s is not compared with the entry that is negotiated: neither side of the "
+                          "comparison (%s) is the value placed in `Accept`; with tables whose entries differ the responder accepts a disagreeing "
+                          "peer or refuses an agreeing one" % (f.path, "network magic" if what == "magic" else "version data", " vs ".join(other)),
+                          where=X.term_where(f, S), rule="AGREE")
+        elif not (vsel & dsel):
+            res.violation(kb + ":agree-provenance", "%s: the data placed in `Accept` (and compared with the peer's) does not come out of the selection "
+                          "of the accepted version (it is another entry / field)" % f.path, where=X.term_where(f, S), rule="AGREE")
+        else:
+            res.ok(kb + ":agree-provenance", "AGREE", "the compared own value is the negotiated entry placed in Accept")
         return
     if found:
         x = found[0]
@@ -424,7 +510,8 @@ def check_refuse(res, P, crate, fns, helpers):
                               "peer is told its own proposal instead of what the responder supports" % (
                                   f.path, sorted(str(x[1:3]) for x in foreign) or "no table at all"), where=where(f, span), rule="REFUSE")
             # on the nothing-found path: every (logical) path to the refusal leaves a search empty-handed, i.e. crosses the
-            # None / exhausted edge of an Option that a selector (`max*`, `find`, `next`, ..) produced
+            # None / exhausted edge of an Option that a selector (`max*`, `find`, `next`, ..) produced or of an Option slot
+            # the function keeps ("found" / "mismatch")
             sx = X.SymX(f)
             none_edges = set()
             for S in L.reachable(0):
@@ -435,7 +522,8 @@ def check_refuse(res, P, crate, fns, helpers):
                 if c[0] != "discr":
                     continue
                 calls = [x for x in sym_walk(c[1]) if x[0] == "call"]
-                if not any(MAXSEL.match(strip_generics(x[1])) or FIRSTSEL.search(strip_generics(x[1])) for x in calls):
+                if not any(MAXSEL.match(strip_generics(x[1])) or FIRSTSEL.search(strip_generics(x[1])) for x in calls) \
+                        and not _discr_of_option(f, S):
                     continue
                 for sc in L.succ(S):
                     vals = [int(v) for v, tg in t["ts"] if tg == sc]
@@ -459,6 +547,23 @@ def check_refuse(res, P, crate, fns, helpers):
     return n
 
 
+def _discr_of_option(f, S):
+    """Does block S switch on the discriminant of an `Option` (e.g. a remembered "found" / "mismatch" slot)?"""
+    t = f.blocks[S]["term"]
+    p = op_place(t["d"])
+    if p is None or pl_proj(p):
+        return False
+    for st in f.blocks[S]["st"]:
+        if st[0] == "a" and st[1] == pl_local(p) and st[2]["k"] == "discr":
+            q = st[2]["p"]
+            ty = f.local_ty(pl_local(q))
+            for e in pl_proj(q):
+                if e[0] == "field":
+                    ty = e[3]
+            return re.sub(r"^&+(mut )?", "", ty).startswith("core::option::Option<")
+    return False
+
+
 def run(tier="quick"):
     res = Result("C25", tier, level="other")
     P = Program(crates=CRATES)
@@ -472,7 +577,7 @@ def run(tier="quick"):
             kb = "%s:%s" % (label, f.path)
             check_select(res, P, f, L, B, V, kb)
             check_common(res, P, f, L, B, V, kb)
-            check_agree(res, P, f, L, B, Dt, kb)
+            check_agree(res, P, f, L, B, Dt, kb, V=V, accept_blocks=[x[1] for x in sites if x[0] is f])
         n = check_refuse(res, P, crate, fns, helpers)
         res.count("version_mismatch_sites", n)
         res.floor("version-mismatch-sites:" + crate, n, 1)
